@@ -1,7 +1,7 @@
 /-
 C06 — executable model of performance MIDI export and import.
 
-Mirrors (after the repairs fixes/C06-1 … C06-5):
+Mirrors (after the repairs fixes/C06-1 … C06-6):
 
   * `partitura/io/exportmidi.py: save_performance_midi`      -> `partEvents`, `defaultPrograms`, `insertAll`,
                                                                  `trackAbs`, `exportAbs`, `exportFile`
@@ -11,6 +11,11 @@ Mirrors (after the repairs fixes/C06-1 … C06-5):
   * `partitura/io/importmidi.py: note_hash`                  -> `noteHash`
   * `Performance.sanitize_track_numbers` (repaired: sorted)  -> `sanitizeKeys`, `sanitize`
   * mido `merge_tracks`, `fix_end_of_track` (trusted)        -> `mergeAbs`, `fixEot`
+  * `Performance(performedparts=…)` at the end of the loader -> `partTracks`, `loadNumbers`, `partNumber`   (round 2)
+  * `partitura/io/__init__.py: load_performance` (MIDI file) -> `toSPart`, `loadPerformance`               (round 2)
+  * `utils/music.py: remove_silence_from_performed_part`     -> `minRat`, `shiftT`, `nub`, `groupControls`,
+                                                                 `prevBest`, `prevVal` (scipy interp1d "previous",
+                                                                 trusted), `shiftGroup`, `removeSilence`     (round 2)
 
 Python dictionaries keyed by track and tick whose keys are iterated in sorted order are a flat list of
 (track, tick, message) in insertion order followed by a *stable* sort on the tick.  A MIDI track is a list
@@ -399,5 +404,121 @@ def indexOfKey (k : Nat × Int) : List (Nat × Int) → Option Nat
 def sanitize (parts : List (List Int)) : List (List (Option Nat)) :=
   let keys := sanitizeKeys (parts.zipIdx.flatMap (fun p => p.1.map (fun t => (p.2, t))))
   parts.zipIdx.map (fun p => p.1.map (fun t => indexOfKey (p.2, t) keys))
+
+-- ------------------------------------------------------------------ the loader's track numbers (round 2)
+
+/-- the track entries `sanitize_track_numbers` sees for a loaded part: one per note, control and program,
+    all equal to the index of the file track the part was read from -/
+def partTracks (t : RTrack) : List Int :=
+  List.replicate (t.notes.length + t.controls.length + t.programs.length) (t.fileTrack : Int)
+
+/-- `Performance(performedparts=pps)` at the end of the loader: the new track number of every note, control
+    and program of every part -/
+def loadNumbers (parts : List RTrack) : List (List (Option Nat)) := sanitize (parts.map partTracks)
+
+/-- the new track number of a part = that of its first entry (all entries of a part get the same) -/
+def partNumber (nums : List (Option Nat)) : Option Nat := nums.head?.join
+
+-- ------------------------------------------------------------------ load_performance, silence removal (round 2)
+
+/-- a loaded performed part with its times in seconds (notes: `PNote`, `track` = sanitized number) -/
+structure SPart where
+  notes : List PNote
+  controls : List PCtl
+  programs : List PProg
+deriving DecidableEq, Repr
+
+/-- the part the loader builds from a kept track: ticks converted with `sec`, track number `j` -/
+def toSPart (sec : Int → Rat) (j : Nat) (t : RTrack) : SPart :=
+  { notes := t.notes.map fun n => ⟨n.pitch, n.vel, n.ch, j, sec n.on, sec n.off⟩,
+    controls := t.controls.map fun c => ⟨sec c.1, c.2.1, c.2.2.1, c.2.2.2, j⟩,
+    programs := t.programs.map fun g => ⟨sec g.1, g.2.1, g.2.2, j⟩ }
+
+/-- `min(n_times)`; `none` = ValueError on an empty list -/
+def minRat : List Rat → Option Rat
+  | [] => none
+  | a :: l => match minRat l with
+    | none => some a
+    | some m => some (if a ≤ m then a else m)
+
+def maxRat : List Rat → Option Rat
+  | [] => none
+  | a :: l => match maxRat l with
+    | none => some a
+    | some m => some (if m ≤ a then a else m)
+
+/-- `max(t - start_time, 0)` -/
+def shiftT (s t : Rat) : Rat := if t - s < 0 then 0 else t - s
+
+/-- keys of a Python dict in insertion order: first occurrences -/
+def nub : List Nat → List Nat
+  | [] => []
+  | a :: l => a :: (nub l).filter (fun b => b != a)
+
+/-- the loop of "previous" interpolation: the sample with the largest time ≤ t, the last one among equal
+    times (scipy sorts the samples with a stable sort and takes the last index with x ≤ t) -/
+def prevBest (t : Rat) : Option (Rat × Nat) → List (Rat × Nat) → Option (Rat × Nat)
+  | best, [] => best
+  | best, (x, v) :: l =>
+    if x ≤ t then
+      match best with
+      | none => prevBest t (some (x, v)) l
+      | some (bx, bv) => if bx ≤ x then prevBest t (some (x, v)) l else prevBest t (some (bx, bv)) l
+    else prevBest t best l
+
+/-- `interp1d(x, y, kind="previous", bounds_error=False, fill_value=(y[0], y[-1]))(t)` for the samples
+    `c0 :: rest` in the order given: below the smallest time the FIRST listed value, above the largest the
+    LAST listed value -/
+def prevVal (c0 : Rat × Nat) (rest : List (Rat × Nat)) (t : Rat) : Nat :=
+  let ct := c0 :: rest
+  let xs := ct.map (·.1)
+  match minRat xs, maxRat xs with
+  | some lo, some hi =>
+    if t < lo then c0.2
+    else if hi < t then (ct.getLast?.getD c0).2
+    else match prevBest t none ct with
+      | some (_, v) => v
+      | none => c0.2
+  | _, _ => c0.2
+
+/-- `control_dict[track][channel][number]`: the groups in the order the nested dicts are iterated -/
+def groupControls (cs : List PCtl) : List (Nat × Nat × Nat × List (Rat × Nat)) :=
+  (nub (cs.map (·.track))).flatMap fun tr =>
+    let c1 := cs.filter (fun c => c.track == tr)
+    (nub (c1.map (·.ch))).flatMap fun ch =>
+      let c2 := c1.filter (fun c => c.ch == ch)
+      (nub (c2.map (·.num))).map fun num =>
+        (tr, ch, num, (c2.filter (fun c => c.num == num)).map (fun c => (c.time, c.val)))
+
+/-- the shifted controls of one (track, channel, number): the controls from `start` on, preceded by one at
+    `start` itself (with the value in force there) if there is none -/
+def shiftGroup (s : Rat) (g : Nat × Nat × Nat × List (Rat × Nat)) : List PCtl :=
+  match g with
+  | (_, _, _, []) => []
+  | (tr, ch, num, c0 :: rest) =>
+    let times := ((c0 :: rest).filter (fun c => decide (s ≤ c.1))).map (·.1)
+    let times := if times.contains s then times else s :: times
+    times.map fun t => { time := shiftT s t, num := num, val := prevVal c0 rest t, ch := ch, track := tr }
+
+def ctlTimeLe (a b : PCtl) : Bool := decide (a.time ≤ b.time)
+
+/-- `remove_silence_from_performed_part`; `none` = ValueError (a part without notes) -/
+def removeSilence (p : SPart) : Option SPart :=
+  match minRat (p.notes.map (·.on)) with
+  | none => none
+  | some s => some
+    { notes := p.notes.map fun n => { n with on := shiftT s n.on, off := shiftT s n.off },
+      controls := sortBy ctlTimeLe ((groupControls p.controls).flatMap (shiftGroup s)),
+      programs := p.programs.map fun g => { g with time := shiftT s g.time } }
+
+/-- `load_performance(..., first_note_at_zero)` on a MIDI file: the parts of `load_performance_midi`; with
+    the flag the FIRST part has its silence removed — an exception raised on the way (no part, no note) is
+    caught by the dispatcher and the performance is returned as it is -/
+def loadPerformance (firstNoteAtZero : Bool) (parts : List SPart) : List SPart :=
+  match firstNoteAtZero, parts with
+  | true, p :: rest => (match removeSilence p with
+    | some p' => p' :: rest
+    | none => p :: rest)
+  | _, ps => ps
 
 end Model.PerfMidi
